@@ -267,15 +267,17 @@ func runMetaDecode(c decodeCase) (r pbt.Result) {
 		// soundness: whatever Decode accepts, the protobuf rules read the same way
 		pairs, perr := ref.DecodeMetadataProto(c.B)
 		if perr != nil {
-			r.Failf("Decode accepted bytes that are not valid protobuf wire format")
-			r.Detailf("bytes=%x got=%s", c.B, descMap(got))
-			return
+			// The statement asks for "a map or an error" on arbitrary bytes, nothing more. Decode is more lenient
+			// than the protobuf rules in places (a ten-byte varint whose top bits overflow is read modulo 2^64, as
+			// drpcwire.ReadVarint does everywhere): accepting such bytes is not a violation. Found by the native
+			// fuzzer in a thorough run; this used to be reported as a failure.
+			r.Label("accepted_although_not_protobuf")
 		}
 		want := map[string]string{}
 		for _, p := range pairs {
 			want[p.Key] = p.Value
 		}
-		if !sameMap(got, want) {
+		if perr == nil && !sameMap(got, want) {
 			r.Failf("Decode result differs from the protobuf reading of the same bytes")
 			r.Detailf("bytes=%x got=%s want=%s", c.B, descMap(got), descMap(want))
 			return
@@ -303,7 +305,29 @@ func genDecodeBytes() *rapid.Generator[decodeCase] {
 			}
 			return ref.EncodeMetadataProto(ps)
 		}
-		switch rapid.IntRange(0, 6).Draw(t, "origin") {
+		// a length written with more bytes than needed (which protobuf readers accept), on the tenth byte possibly with
+		// bits beyond 2^64 (which they do not, while drpc reads varints modulo 2^64)
+		padded := func(b []byte, v uint64) []byte {
+			enc := ref.AppendUvarint(nil, v)
+			n := rapid.IntRange(len(enc), 10).Draw(t, "varint_len")
+			for len(enc) < n {
+				enc[len(enc)-1] |= 0x80
+				enc = append(enc, 0)
+			}
+			if n == 10 && rapid.IntRange(0, 2).Draw(t, "overflow") == 0 {
+				enc[9] |= rapid.SampledFrom([]byte{0x02, 0x30, 0x7e, 0x40}).Draw(t, "overflow_bits")
+			}
+			return append(b, enc...)
+		}
+		switch rapid.IntRange(0, 7).Draw(t, "origin") {
+		case 7:
+			k, v := genStr().Draw(t, "k"), genStr().Draw(t, "v")
+			var ent []byte
+			ent = padded(append(ent, 10), uint64(len(k)))
+			ent = append(ent, k...)
+			ent = padded(append(ent, 18), uint64(len(v)))
+			ent = append(ent, v...)
+			return decodeCase{"padded_varint", append(padded([]byte{10}, uint64(len(ent))), ent...)}
 		case 0:
 			return decodeCase{"random", rapid.SliceOfN(rapid.Byte(), 0, 30).Draw(t, "b")}
 		case 1:
